@@ -383,6 +383,57 @@ fn expected_extract(p: &Pset) -> Result<Transaction, String> {
     Ok(Transaction { version: p.global.tx_data.version, lock_time: LockTime::from_consensus(lt), input, output })
 }
 
+/// `Output::to_txout` of every output and the derived predicates of inputs/outputs (K op `pset.totxout`)
+fn totxout_str(p: &Pset) -> String {
+    let outs = if p.outputs().is_empty() { "-".to_string() } else {
+        p.outputs().iter().map(|o| { let t = o.to_txout(); format!("{}/{}/{}{}{}", hex(&serialize(&t)), hex(&serialize(&t.witness)), if o.is_partially_blinded() { "p" } else { "-" }, if o.is_fully_blinded() { "f" } else { "-" }, if o.is_marked_for_blinding() { "m" } else { "-" }) }).collect::<Vec<_>>().join(",")
+    };
+    let ins = if p.inputs().is_empty() { "-".to_string() } else {
+        p.inputs().iter().map(|i| format!("{}{}:{}", if i.is_pegin() { "p" } else { "-" }, if i.has_issuance() { "i" } else { "-" }, hex(&serialize(&i.asset_issuance())))).collect::<Vec<_>>().join(".")
+    };
+    format!("ok {} {}", outs, ins)
+}
+
+/// the same, written from the fields: a commitment always wins over the explicit form; the nonce
+/// is the ecdh key of a partially blinded output, the blinding key otherwise; the issuance of an
+/// input is a function of its six issuance fields only
+fn expected_totxout(p: &Pset) -> String {
+    let val = |x: Option<u64>, c: Option<elements::secp256k1_zkp::PedersenCommitment>| match (x, c) {
+        (_, Some(c)) => Value::Confidential(c),
+        (Some(x), None) => Value::Explicit(x),
+        (None, None) => Value::Null,
+    };
+    let outs = if p.outputs().is_empty() { "-".to_string() } else {
+        p.outputs().iter().map(|o| {
+            let pb = o.blinding_key.is_some() && (o.amount_comm.is_some() || o.asset_comm.is_some() || o.value_rangeproof.is_some() || o.asset_surjection_proof.is_some() || o.ecdh_pubkey.is_some());
+            let key = if pb { o.ecdh_pubkey } else { o.blinding_key };
+            let t = elements::TxOut {
+                asset: match (o.asset_comm, o.asset) { (Some(g), _) => Asset::Confidential(g), (None, Some(a)) => Asset::Explicit(a), _ => Asset::Null },
+                value: val(o.amount, o.amount_comm),
+                nonce: match key { Some(pk) => Nonce::Confidential(pk.inner), None => Nonce::Null },
+                script_pubkey: o.script_pubkey.clone(),
+                witness: TxOutWitness { surjection_proof: o.asset_surjection_proof.clone(), rangeproof: o.value_rangeproof.clone() },
+            };
+            let fb = o.blinding_key.is_some() && o.amount_comm.is_some() && o.asset_comm.is_some() && o.value_rangeproof.is_some() && o.asset_surjection_proof.is_some() && o.ecdh_pubkey.is_some();
+            format!("{}/{}/{}{}{}", hex(&serialize(&t)), hex(&serialize(&t.witness)), if pb { "p" } else { "-" }, if fb { "f" } else { "-" }, if o.blinding_key.is_some() { "m" } else { "-" })
+        }).collect::<Vec<_>>().join(",")
+    };
+    let ins = if p.inputs().is_empty() { "-".to_string() } else {
+        p.inputs().iter().map(|i| {
+            let raw = i.previous_output_index;
+            let iss = AssetIssuance {
+                asset_blinding_nonce: i.issuance_blinding_nonce.unwrap_or(elements::secp256k1_zkp::ZERO_TWEAK),
+                asset_entropy: i.issuance_asset_entropy.unwrap_or([0; 32]),
+                amount: val(i.issuance_value_amount, i.issuance_value_comm),
+                inflation_keys: val(i.issuance_inflation_keys, i.issuance_inflation_keys_comm),
+            };
+            let has = !(iss.amount.is_null() && iss.inflation_keys.is_null());
+            format!("{}{}:{}", if raw != 0xffff_ffff && (raw >> 30) & 1 == 1 { "p" } else { "-" }, if has { "i" } else { "-" }, hex(&serialize(&iss)))
+        }).collect::<Vec<_>>().join(".")
+    };
+    format!("ok {} {}", outs, ins)
+}
+
 fn check_pset(out: &mut Out, t: &Transaction, adds: &[Add], k: bool) -> Option<Pset> {
     let p = match pd::build(t, adds) {
         Some(p) => p,
@@ -395,7 +446,9 @@ fn check_pset(out: &mut Out, t: &Transaction, adds: &[Add], k: bool) -> Option<P
         out.k(format!("pset.uid {}", desc), uid.clone());
         out.k(format!("pset.extract {}", desc), ext.clone());
         out.k(format!("pset.dump {}", desc), format!("ok {}", pd::dump_pset(&p)));
+        out.k(format!("pset.totxout {}", desc), Out::guard(|| totxout_str(&p)));
     }
+    out.s("to_txout_reflects_fields", Out::guard(|| totxout_str(&p)) == expected_totxout(&p), || format!("{} real={} oracle={}", desc, Out::guard(|| totxout_str(&p)), expected_totxout(&p)));
     // unique id = double-SHA256 of the unsigned transaction written from the fields
     let exp_uid = match unsigned_preimage(&p) {
         Ok(b) => format!("ok {}", hex(&sha256d::Hash::hash(&b).to_byte_array())),
@@ -469,6 +522,152 @@ fn uid_table(out: &mut Out, rng: &mut R, t: &Transaction, base_adds: &[Add]) {
     }
 }
 
+/// additions that put an (explicit, commitment) pair of fields at `loc` into one of its four
+/// shapes: 0 neither, 1 explicit only, 2 commitment only, 3 both
+fn pair_adds(loc: &str, f_explicit: &str, f_comm: &str, shape: usize, explicit: &[u8], comm: &[u8]) -> Vec<Add> {
+    let mut v = vec![];
+    if shape & 1 != 0 { v.push(Add::new(loc, f_explicit, &[], explicit)); } else { v.push(Add::unset(loc, f_explicit)); }
+    if shape & 2 != 0 { v.push(Add::new(loc, f_comm, &[], comm)); } else { v.push(Add::unset(loc, f_comm)); }
+    v
+}
+
+/// issuance inputs over the full product {amount: none/explicit/comm/both} x {keys: …} x
+/// {blinded_issuance: None, 0, 1, 2} x {nonce zero/non-zero}: extraction and the unique id are
+/// functions of the six issuance fields (the commitment wins), the marker is not looked at
+/// (found missing by seeded change C08-w2m2)
+fn issuance_product(out: &mut Out, rng: &mut R, k: bool) {
+    let kind = [gen::InKind::Plain, gen::InKind::Pegin, gen::InKind::Issuance, gen::InKind::Reissuance][rng.gen_range(0..4)];
+    let mut t = gen::tx_wide(rng, 0, 1);
+    t.input.push(gen::txin(rng, kind, true));
+    if rng.gen_bool(0.5) { t.input.push(gen::txin(rng, gen::InKind::Plain, false)); }
+    let j = 0;
+    let loc = format!("i{}", j);
+    let amt = gen::u64_edge(rng).to_le_bytes();
+    let keys = gen::u64_edge(rng).to_le_bytes();
+    let amt_c = gen::point33(rng, 8);
+    let keys_c = gen::point33(rng, 8);
+    let entropy = gen::arr32(rng);
+    let nonce_nz = pd::se(&gen::tweak(rng));
+    for nonce in 0..2 {
+        let mut uids: std::collections::BTreeMap<(usize, usize, usize), (String, String)> = Default::default();
+        for a in 0..4 {
+            for kshape in 0..4 {
+                for (mi, marker) in [None, Some(0u8), Some(1), Some(2)].iter().enumerate() {
+                    let mut adds = pair_adds(&loc, "issuance_value_amount", "issuance_value_comm", a, &amt, &amt_c);
+                    adds.extend(pair_adds(&loc, "issuance_inflation_keys", "issuance_inflation_keys_comm", kshape, &keys, &keys_c));
+                    adds.push(if nonce == 0 { Add::unset(&loc, "issuance_blinding_nonce") } else { Add::new(&loc, "issuance_blinding_nonce", &[], &nonce_nz) });
+                    adds.push(Add::new(&loc, "issuance_asset_entropy", &[], &entropy));
+                    adds.push(match marker { None => Add::unset(&loc, "blinded_issuance"), Some(m) => Add::new(&loc, "blinded_issuance", &[], &[*m]) });
+                    if let Some(p) = check_pset(out, &t, &adds, k) {
+                        uids.insert((a, kshape, mi), (uid_str(&p), extract_str(&p)));
+                        out.count(&format!("issuance.amount{}.keys{}.marker{}", a, kshape, mi));
+                    }
+                }
+            }
+        }
+        let desc = |x: &(usize, usize, usize), y: &(usize, usize, usize)| format!("tx={} input {} nonce_nonzero={} (amount shape, keys shape, marker index) {:?} vs {:?}: {:?} vs {:?}", hex(&serialize(&t)), loc, nonce, x, y, uids.get(x), uids.get(y));
+        for a in 0..4 {
+            for kshape in 0..4 {
+                for mi in 1..4 {
+                    // the marker is ignored by the id and by extraction
+                    out.s("unique_id_ignores", uids.get(&(a, kshape, mi)) == uids.get(&(a, kshape, 0)), || desc(&(a, kshape, mi), &(a, kshape, 0)));
+                }
+            }
+        }
+        for other in 0..4 {
+            for mi in 0..4 {
+                for mj in 0..4 {
+                    // adding the explicit amount next to an existing commitment changes nothing: the commitment wins
+                    out.s("unique_id_ignores", uids.get(&(2, other, mi)) == uids.get(&(3, other, mj)), || desc(&(2, other, mi), &(3, other, mj)));
+                    out.s("unique_id_ignores", uids.get(&(other, 2, mi)) == uids.get(&(other, 3, mj)), || desc(&(other, 2, mi), &(other, 3, mj)));
+                }
+            }
+        }
+    }
+}
+
+/// outputs over {amount: none/explicit/comm/both} x {asset: none/explicit/comm/both} x blinding
+/// fields {none, blinding key only, ecdh key only, everything}: `extract_tx` and `to_txout` prefer the commitment
+fn output_product(out: &mut Out, rng: &mut R, k: bool) {
+    let mut t = gen::tx_wide(rng, 1, 0);
+    { let w = rng.gen_bool(0.5); t.output.push(gen::txout(rng, w)); }
+    if rng.gen_bool(0.5) { t.output.push(gen::txout(rng, false)); }
+    let loc = "o0";
+    let amt = gen::u64_edge(rng).to_le_bytes();
+    let amt_c = gen::point33(rng, 8);
+    let asset = gen::arr32(rng);
+    let asset_c = gen::point33(rng, 10);
+    let bkey = pd::se(&pd::btc_pubkey(rng));
+    let ekey = pd::se(&pd::btc_pubkey(rng));
+    let rp = pd::small_rangeproof(rng);
+    let sp = gen::surjproof_bytes(rng);
+    let mut uids: std::collections::BTreeMap<(usize, usize, usize), (String, String)> = Default::default();
+    for a in 0..4 {
+        for s in 0..4 {
+            for b in 0..4 {
+                let mut adds = pair_adds(loc, "amount", "amount_comm", a, &amt, &amt_c);
+                adds.extend(pair_adds(loc, "asset", "asset_comm", s, &asset, &asset_c));
+                for f in ["blinding_key", "ecdh_pubkey", "value_rangeproof", "asset_surjection_proof", "blinder_index", "blind_value_proof", "blind_asset_proof"] { adds.push(Add::unset(loc, f)); }
+                if b == 1 || b == 3 { adds.push(Add::new(loc, "blinding_key", &[], &bkey)); }
+                if b == 2 || b == 3 { adds.push(Add::new(loc, "ecdh_pubkey", &[], &ekey)); }
+                if b == 3 {
+                    adds.push(Add::new(loc, "value_rangeproof", &[], &rp));
+                    adds.push(Add::new(loc, "asset_surjection_proof", &[], &sp));
+                    adds.push(Add::new(loc, "blinder_index", &[], &le32(0)));
+                    adds.push(Add::new(loc, "blind_value_proof", &[], &rp));
+                    adds.push(Add::new(loc, "blind_asset_proof", &[], &sp));
+                }
+                if let Some(p) = check_pset(out, &t, &adds, k) {
+                    uids.insert((a, s, b), (uid_str(&p), extract_str(&p)));
+                    out.count(&format!("outpair.amount{}.asset{}.blind{}", a, s, b));
+                }
+            }
+        }
+    }
+    let desc = |x: &(usize, usize, usize), y: &(usize, usize, usize)| format!("tx={} output o0 (amount shape, asset shape, blinding variant) {:?} vs {:?}: {:?} vs {:?}", hex(&serialize(&t)), x, y, uids.get(x), uids.get(y));
+    for other in 0..4 {
+        for b in 0..4 {
+            // the explicit form next to a commitment changes neither the id nor (witness aside) the transaction
+            out.s("unique_id_ignores", uids.get(&(2, other, b)).map(|u| &u.0) == uids.get(&(3, other, b)).map(|u| &u.0), || desc(&(2, other, b), &(3, other, b)));
+            out.s("unique_id_ignores", uids.get(&(other, 2, b)).map(|u| &u.0) == uids.get(&(other, 3, b)).map(|u| &u.0), || desc(&(other, 2, b), &(other, 3, b)));
+            out.s("extract_reflects_fields", uids.get(&(2, other, b)).map(|u| &u.1) == uids.get(&(3, other, b)).map(|u| &u.1) && uids.get(&(other, 2, b)).map(|u| &u.1) == uids.get(&(other, 3, b)).map(|u| &u.1), || desc(&(2, other, b), &(3, other, b)));
+        }
+    }
+    // blinding key without ecdh key is not part of the id (variants 0 and 1 agree)
+    for a in 0..4 { for s in 0..4 {
+        out.s("unique_id_ignores", uids.get(&(a, s, 0)).map(|u| &u.0) == uids.get(&(a, s, 1)).map(|u| &u.0), || desc(&(a, s, 0), &(a, s, 1)));
+    } }
+}
+
+/// on generated issuance inputs as `from_tx` stores them: the marker and the explicit amount next
+/// to an existing commitment, at every issuance input
+fn issuance_updates(out: &mut Out, rng: &mut R) {
+    let t = loop { let t = quantifier_tx(rng, true); if t.input.iter().any(|i| i.has_issuance()) { break t; } };
+    let base = match pd::build(&t, &[]) { Some(p) => p, None => return };
+    let base_uid = uid_str(&base);
+    let base_ext = extract_str(&base);
+    for (j, i) in t.input.iter().enumerate() {
+        if !i.has_issuance() { continue; }
+        let loc = format!("i{}", j);
+        let mut variants: Vec<Vec<Add>> = vec![];
+        for m in [0u8, 1, 2, 0xff] { variants.push(vec![Add::new(&loc, "blinded_issuance", &[], &[m])]); }
+        let mut explicit = vec![];
+        if i.asset_issuance.amount.is_confidential() { explicit.push(Add::new(&loc, "issuance_value_amount", &[], &gen::u64_edge(rng).to_le_bytes())); }
+        if i.asset_issuance.inflation_keys.is_confidential() { explicit.push(Add::new(&loc, "issuance_inflation_keys", &[], &gen::u64_edge(rng).to_le_bytes())); }
+        if !explicit.is_empty() {
+            variants.push(explicit.clone());
+            for m in [0u8, 1] { let mut v = explicit.clone(); v.push(Add::new(&loc, "blinded_issuance", &[], &[m])); variants.push(v.clone()); v.reverse(); variants.push(v); }
+            out.count("issuance.update.explicit_next_to_commitment");
+        }
+        for adds in variants {
+            if let Some(p) = check_pset(out, &t, &adds, true) {
+                out.s("unique_id_ignores", uid_str(&p) == base_uid, || format!("{} {} base_uid={} uid={}", hex(&serialize(&t)), pd::adds_text(&adds), base_uid, uid_str(&p)));
+                out.s("extract_reflects_fields", extract_str(&p) == base_ext, || format!("{} {} : extraction changed by fields it must not read", hex(&serialize(&t)), pd::adds_text(&adds)));
+            }
+        }
+    }
+}
+
 pub fn run(rng: &mut R, out: &mut Out) {
     c01::cfg_line(out);
     let scale = if out.tier_thorough { 12 } else { 1 };
@@ -493,6 +692,12 @@ pub fn run(rng: &mut R, out: &mut Out) {
     for _ in 0..200 * scale {
         from_tx_case(out, &odd_tx(rng), false);
     }
+
+    // pairs of representations (explicit next to commitment) and the blinded-issuance marker
+    issuance_product(out, rng, true);
+    output_product(out, rng, true);
+    for _ in 0..(3 * scale - 1) { issuance_product(out, rng, false); output_product(out, rng, false); }
+    for _ in 0..6 * scale { issuance_updates(out, rng); }
 
     // updated PSETs: extract / unique id / dump
     for _ in 0..60 * scale {
